@@ -397,6 +397,11 @@ class Interp:
                 continue
             if isinstance(init, C.Init) and init.type is None and len(init.elems) == 1 and d.init_kind in ("{}", "()"):
                 init = init.elems[0]
+            if d.ref and isinstance(init, C.Ternary):
+                # a reference is bound once: resolve the selection now (forks on the condition atoms)
+                while isinstance(init, C.Ternary):
+                    c = self.truthy(self.eval(init.c, env), env.canon(init.c))
+                    init = init.a if c else init.b
             if (d.ref or (d.ptr and not isinstance(init, C.Ternary))) and not isinstance(init, C.Lambda):
                 txt = env.canon(init)
                 # a reference to a role lvalue stays an alias
